@@ -24,6 +24,7 @@ type wop struct {
 	kind   string // MsgAll MsgTo MsgExcept FrameAll FrameTo FrameExcept
 	target int    // channel index; -1 closed channel; -2 foreign channel; -3 nil
 	raw    bool   // frames: raw message instead of decoded
+	other  bool   // frames: the frame's version is the opposite of the node's output version
 }
 
 func (o wop) String() string { return fmt.Sprintf("%s(%d)", o.kind, o.target) }
@@ -92,6 +93,7 @@ func TestC11FanOut(t *testing.T) {
 					}
 				}
 				o.raw = rapid.Bool().Draw(t, "raw")
+				o.other = rapid.IntRange(0, 3).Draw(t, "other_version") == 0
 				prog = append(prog, o)
 			}
 			w.programs = append(w.programs, prog)
@@ -365,7 +367,7 @@ func runC11(w *c11World) error {
 						}
 					}()
 					if isFrame {
-						fr, _ := fwdFrame(p, i, w.v2, o.raw)
+						fr, _ := fwdFrame(p, i, w.v2 != o.other, o.raw)
 						switch o.kind {
 						case "FrameAll":
 							err = n.WriteFrameAll(fr)
@@ -426,8 +428,8 @@ func runC11(w *c11World) error {
 			if err != nil || nbytes != len(b) {
 				return fmt.Errorf("channel %d: transport write %d is not exactly one whole frame: %x", c, k, b)
 			}
-			if f.V2 != w.v2 {
-				return fmt.Errorf("channel %d write %d: version differs from the configured one", c, k)
+			if f.V2 != w.v2 && f.Sys == nodeSys {
+				return fmt.Errorf("channel %d write %d: originated message in a version that differs from the configured one", c, k)
 			}
 			if f.ID != debugMsgID {
 				return fmt.Errorf("channel %d write %d: unexpected message id %d", c, k, f.ID)
@@ -459,7 +461,13 @@ func runC11(w *c11World) error {
 				}
 			} else {
 				it.frame = true
-				_, wantF := fwdFrame(it.p, it.i, w.v2, false)
+				_, wantF := fwdFrame(it.p, it.i, f.V2, false)
+				if w.programs[it.p][it.i].other != (f.V2 != w.v2) {
+					return fmt.Errorf("channel %d write %d: forwarded frame changed version (v2=%v)", c, k, f.V2)
+				}
+				if string(f.Payload) != string(wantF.Payload) {
+					return fmt.Errorf("channel %d write %d: forwarded %s frame carries payload %x, its version's encoding is %x", c, k, map[bool]string{true: "v2", false: "v1"}[f.V2], f.Payload, wantF.Payload)
+				}
 				if f.Sys != wantF.Sys || f.Comp != wantF.Comp || f.Seq != wantF.Seq {
 					return fmt.Errorf("channel %d write %d: forwarded frame header changed: seq/sys/comp %d/%d/%d, submitted %d/%d/%d", c, k, f.Seq, f.Sys, f.Comp, wantF.Seq, wantF.Sys, wantF.Comp)
 				}
